@@ -4,6 +4,17 @@
 use crate::world::World;
 
 pub fn classify(w: &World) {
+    {
+        let m = w.m.borrow();
+        let mut st = w.stats.borrow_mut();
+        st.add("freed_leaf_layouts_distinct", m.leaf_layouts_freed.len() as u64);
+        st.add("free_paths_distinct", m.free_paths.len() as u64);
+        if let Some((op, live)) = m.fault_op {
+            if live >= 2 && op + 3 <= m.prog_ops {
+                st.bump("fault_fired_with_continuation");
+            }
+        }
+    }
     let mut st = w.stats.borrow_mut();
     let c = |k: &str| st.counters.get(k).copied().unwrap_or(0);
     let cb = |k: &str| st.callbacks.get(k).copied().unwrap_or(0);
